@@ -4,7 +4,8 @@ package mutate
 // of its structural parts (headers, directories, tables), written from the
 // format specifications. They only choose WHERE the enumerators mutate; they
 // are not oracles. All of them tolerate arbitrary input (return what they
-// found so far).
+// found so far). Regions flagged Core are the compact field windows (magics,
+// counts, sizes, offsets) used by the quick tier.
 
 import (
 	"bytes"
@@ -16,12 +17,14 @@ import (
 const (
 	SmallSeed = 8 << 10 // seeds up to this size: every offset is structural
 	EdgeLen   = 2 << 10 // bigger seeds: first and last EdgeLen bytes ...
+	TinySeed  = 1 << 10 // quick tier: every offset only up to this size
+	QuickEdge = 128     // quick tier: first/last bytes of bigger seeds
 )
 
-// Structural returns the region set for a seed of the given format kind:
-// the whole file for seeds <= 8 KiB; otherwise the first 2 KiB, the last
-// 2 KiB and the format's structures. Format structures are always included
-// (also for small seeds) because they carry their own alignment base.
+// Structural returns the full region set for a seed of the given format
+// kind: the whole file for seeds <= 8 KiB; otherwise the first 2 KiB, the
+// last 2 KiB and the format's structures. Format structures are always
+// included (also for small seeds) because they carry their own alignment base.
 func Structural(seed []byte, kind string) []Region {
 	n := len(seed)
 	var rs []Region
@@ -34,6 +37,40 @@ func Structural(seed []byte, kind string) []Region {
 	return Clip(rs, n)
 }
 
+// QuickRegions is the stated sub-space of the quick tier: the whole file for
+// seeds <= 1 KiB; otherwise the first and last 128 bytes and the Core field
+// windows of the format's structures.
+func QuickRegions(seed []byte, kind string) []Region {
+	n := len(seed)
+	if n <= TinySeed {
+		return Clip(append([]Region{{Off: 0, Len: n, Name: "whole"}}, CoreOnly(Layout(seed, kind))...), n)
+	}
+	rs := []Region{{Off: 0, Len: QuickEdge, Name: "head"}, {Off: n - QuickEdge, Len: QuickEdge, Name: "tail"}}
+	rs = append(rs, CoreOnly(Layout(seed, kind))...)
+	return Clip(rs, n)
+}
+
+func CoreOnly(rs []Region) []Region {
+	var out []Region
+	for _, r := range rs {
+		if r.Core {
+			out = append(out, r)
+		}
+	}
+	return out
+}
+
+// Shift moves regions by delta (for structures embedded in a container).
+func Shift(rs []Region, delta int) []Region {
+	out := make([]Region, len(rs))
+	for i, r := range rs {
+		r.Off += delta
+		r.Base += delta
+		out[i] = r
+	}
+	return out
+}
+
 // Layout dispatches on the format kind.
 func Layout(seed []byte, kind string) []Region {
 	switch kind {
@@ -43,10 +80,12 @@ func Layout(seed []byte, kind string) []Region {
 		return PELayout(seed)
 	case "cfb":
 		return CFBLayout(seed)
+	case "cab":
+		return CabLayout(seed)
 	case "ar":
 		return ArLayout(seed)
 	case "der":
-		return DERLayout(seed, 5, 24)
+		return DERLayout(seed)
 	case "xar":
 		return XarLayout(seed)
 	case "dmg":
@@ -59,8 +98,8 @@ func Layout(seed []byte, kind string) []Region {
 		return XMLSigLayout(seed)
 	case "rpm":
 		return RPMLayout(seed)
-	case "pem":
-		return nil
+	case "text":
+		return TextLayout(seed)
 	}
 	return nil
 }
@@ -97,10 +136,31 @@ func be64(b []byte, off int) int {
 	return int(v)
 }
 
+func le64(b []byte, off int) int {
+	if off < 0 || off+8 > len(b) {
+		return 0
+	}
+	v := binary.LittleEndian.Uint64(b[off:])
+	if v > 1<<40 {
+		return 0
+	}
+	return int(v)
+}
+
+func capLen(l, max int) int {
+	if l > max {
+		return max
+	}
+	return l
+}
+
 // ZipLayout: end-of-central-directory record (+ zip64 locator/record), every
 // central directory entry, every local file header (with name and extra), a
-// data descriptor after each member, the APK signing block. ZIP records are
-// packed: 16- and 32-bit fields sit at even offsets from the record start.
+// data descriptor after each member, small member bodies, the APK signing
+// block. ZIP records are packed: 16- and 32-bit fields sit at even offsets
+// from the record start. Core: EOCD, the fixed part (+ name) of the first and
+// last 3 central-directory entries and of their local headers, the APK
+// signing block's size fields and first pair header.
 func ZipLayout(z []byte) []Region {
 	var rs []Region
 	n := len(z)
@@ -114,26 +174,53 @@ func ZipLayout(z []byte) []Region {
 	if eocd < 0 {
 		return nil
 	}
-	rs = append(rs, Region{Off: eocd, Len: n - eocd, Name: "zip.eocd", Base: eocd, Step32: 2})
+	eocdLen := 22 + u16(z, eocd+20)
+	if eocd+eocdLen > n {
+		eocdLen = n - eocd
+	}
+	rs = append(rs, Region{Off: eocd, Len: eocdLen, Name: "zip.eocd", Base: eocd, Step32: 2, Core: true})
+	if eocd+eocdLen < n {
+		// whatever follows the archive (XAP signature header, trailing garbage)
+		rs = append(rs, Region{Off: eocd + eocdLen, Len: 32, Name: "zip.after", Base: eocd + eocdLen, Core: true})
+	}
+	cdOff, cnt := u32(z, eocd+16), u16(z, eocd+10)
 	if eocd >= 20 && u32(z, eocd-20) == 0x07064b50 {
-		rs = append(rs, Region{Off: eocd - 20, Len: 20, Name: "zip.z64loc", Base: eocd - 20, Step32: 2})
-		if o := be64le(z, eocd-20+8); o > 0 && o < n {
-			rs = append(rs, Region{Off: o, Len: 56, Name: "zip.z64end", Base: o, Step32: 2})
+		rs = append(rs, Region{Off: eocd - 20, Len: 20, Name: "zip.z64loc", Base: eocd - 20, Step32: 2, Core: true})
+		if o := le64(z, eocd-20+8); o > 0 && o+56 <= n && u32(z, o) == 0x06064b50 {
+			rs = append(rs, Region{Off: o, Len: 56, Name: "zip.z64end", Base: o, Step32: 2, Core: true})
+			if cdOff == 0xffffffff {
+				cdOff = le64(z, o+48)
+			}
+			if cnt == 0xffff {
+				cnt = le64(z, o+32)
+			}
 		}
 	}
-	cdOff, cdSize, cnt := u32(z, eocd+16), u32(z, eocd+12), u16(z, eocd+10)
 	p := cdOff
 	for i := 0; i < cnt && p+46 <= n && u32(z, p) == 0x02014b50; i++ {
-		l := 46 + u16(z, p+28) + u16(z, p+30) + u16(z, p+32)
+		core := i < 3 || i >= cnt-3
+		nl := u16(z, p+28)
+		l := 46 + nl + u16(z, p+30) + u16(z, p+32)
 		rs = append(rs, Region{Off: p, Len: l, Name: "zip.cd", Base: p, Step32: 2})
+		if core {
+			rs = append(rs, Region{Off: p, Len: 46 + capLen(nl, 24), Name: "zip.cd.fixed", Base: p, Step32: 2, Core: true})
+		}
 		lo := u32(z, p+42)
 		csize := u32(z, p+20)
 		if lo+30 <= n && u32(z, lo) == 0x04034b50 {
 			ll := 30 + u16(z, lo+26) + u16(z, lo+28)
 			rs = append(rs, Region{Off: lo, Len: ll, Name: "zip.local", Base: lo, Step32: 2})
+			if core {
+				rs = append(rs, Region{Off: lo, Len: 30 + capLen(u16(z, lo+26), 8), Name: "zip.local.fixed", Base: lo, Step32: 2, Core: true})
+			}
 			if u16(z, lo+6)&8 != 0 { // data descriptor follows the data
 				dd := lo + ll + csize
-				rs = append(rs, Region{Off: dd, Len: 24, Name: "zip.datadesc", Base: dd, Step32: 2})
+				rs = append(rs, Region{Off: dd, Len: 24, Name: "zip.datadesc", Base: dd, Step32: 2, Core: core})
+			}
+			// a stored PE member (appx payloads are digested as PE images)
+			name := string(z[lo+30 : lo+30+u16(z, lo+26)])
+			if u16(z, lo+8) == 0 && (strings.HasSuffix(name, ".dll") || strings.HasSuffix(name, ".exe")) && lo+ll+csize <= n {
+				rs = append(rs, Shift(PELayout(z[lo+ll:lo+ll+csize]), lo+ll)...)
 			}
 			// small members (manifests, signature files) are structure too
 			if csize <= 1024 {
@@ -142,43 +229,33 @@ func ZipLayout(z []byte) []Region {
 		}
 		p += l
 	}
-	_ = cdSize
-	// APK signing block: ... size(8) pairs magic(16) right before the CD
+	// APK signing block: size(8) pairs... size(8) magic(16) right before the CD
 	if cdOff >= 24 && cdOff <= n && string(z[cdOff-16:cdOff]) == "APK Sig Block 42" {
-		sz := be64le(z, cdOff-24)
+		sz := le64(z, cdOff-24)
 		start := cdOff - sz - 8
-		if start >= 0 {
-			if sz+8 <= 8192 {
-				rs = append(rs, Region{Off: start, Len: sz + 8, Name: "apk.sigblock", Base: start})
-			} else {
-				rs = append(rs, Region{Off: start, Len: 1024, Name: "apk.sigblock.head", Base: start},
-					Region{Off: cdOff - 64, Len: 64, Name: "apk.sigblock.tail", Base: cdOff - 64})
-			}
+		if start >= 0 && sz > 0 {
+			rs = append(rs, Region{Off: start, Len: capLen(sz+8, 8192), Name: "apk.sigblock", Base: start})
+			// block size, first pair (len 8, id 4), v2 block: signers len, signer len, signed-data len, digests len
+			rs = append(rs, Region{Off: start, Len: 64, Name: "apk.sigblock.head", Base: start, Core: true},
+				Region{Off: cdOff - 24, Len: 24, Name: "apk.sigblock.tail", Base: cdOff - 24, Core: true})
 		}
 	}
 	return rs
 }
 
-func be64le(b []byte, off int) int {
-	if off < 0 || off+8 > len(b) {
-		return 0
-	}
-	v := binary.LittleEndian.Uint64(b[off:])
-	if v > 1<<40 {
-		return 0
-	}
-	return int(v)
-}
-
 // PELayout: DOS header, PE signature + COFF header + optional header + data
-// directories + section table, the attribute certificate table, the CLI
-// header of .NET images.
+// directories + section table, the attribute certificate table. Core: MZ and
+// e_lfanew, the COFF header, the optional-header magic and size fields, the
+// directory count and the certificate-table / CLR directory entries, the
+// section table (first 4), the certificate table entry header and the first
+// bytes of its PKCS#7.
 func PELayout(b []byte) []Region {
 	var rs []Region
 	if len(b) < 64 {
 		return nil
 	}
-	rs = append(rs, Region{Off: 0, Len: 64, Name: "pe.dos"})
+	rs = append(rs, Region{Off: 0, Len: 64, Name: "pe.dos"},
+		Region{Off: 0, Len: 4, Name: "pe.dos.magic", Core: true}, Region{Off: 0x3c, Len: 4, Name: "pe.dos.lfanew", Core: true})
 	lfanew := u32(b, 0x3c)
 	if lfanew <= 0 || lfanew+24 > len(b) {
 		return rs
@@ -187,34 +264,48 @@ func PELayout(b []byte) []Region {
 	optSize := u16(b, lfanew+20)
 	hdrLen := 24 + optSize + 40*nsec
 	rs = append(rs, Region{Off: lfanew, Len: hdrLen, Name: "pe.headers", Base: lfanew})
+	rs = append(rs, Region{Off: lfanew, Len: 24, Name: "pe.coff", Base: lfanew, Core: true})
 	opt := lfanew + 24
 	ddOff := opt + 96
 	if u16(b, opt) == 0x20b {
 		ddOff = opt + 112
 	}
+	rs = append(rs, Region{Off: opt, Len: 4, Name: "pe.opt.magic", Base: opt, Core: true},
+		Region{Off: opt + 32, Len: 8, Name: "pe.opt.align", Base: opt, Core: true},
+		Region{Off: opt + 56, Len: 12, Name: "pe.opt.sizes+checksum", Base: opt, Core: true},
+		Region{Off: ddOff - 4, Len: 4, Name: "pe.opt.numdirs", Base: opt, Core: true},
+		Region{Off: ddOff + 8*4, Len: 8, Name: "pe.dir.certtable", Base: opt, Core: true},
+		Region{Off: ddOff + 8*14, Len: 8, Name: "pe.dir.clr", Base: opt, Core: true})
+	st := opt + optSize
+	rs = append(rs, Region{Off: st, Len: 40 * capLen(nsec, 4), Name: "pe.sections", Base: st, Core: true})
 	// data directory 4 = certificate table (file offset, size)
 	certOff, certSize := u32(b, ddOff+8*4), u32(b, ddOff+8*4+4)
 	if certOff > 0 && certOff < len(b) {
-		l := certSize
-		if l > 4096 {
-			l = 4096
-		}
-		rs = append(rs, Region{Off: certOff, Len: l, Name: "pe.certtable", Base: certOff})
+		rs = append(rs, Region{Off: certOff, Len: capLen(certSize, 4096), Name: "pe.certtable", Base: certOff})
+		rs = append(rs, Region{Off: certOff, Len: 8 + 24, Name: "pe.certtable.head", Base: certOff, Core: true})
 		if certSize > 4096 {
 			rs = append(rs, Region{Off: certOff + certSize - 512, Len: 512, Name: "pe.certtable.tail"})
+		}
+		if certOff+8 < len(b) {
+			rs = append(rs, Shift(CoreOnly(DERLayout(b[certOff+8:])), certOff+8)...)
 		}
 	}
 	return rs
 }
 
 // CFBLayout: the 512-byte header (incl. the first 109 DIFAT entries), every
-// FAT sector, every directory sector, the first mini-FAT sector.
+// FAT sector, every directory sector, the mini-FAT sectors. Core: the header
+// fields (byte order .. first DIFAT entries), the first 32 bytes of the first
+// FAT and mini-FAT sector, and of every directory entry its name length,
+// type, sibling/child ids, start sector and size.
 func CFBLayout(b []byte) []Region {
 	var rs []Region
 	if len(b) < 512 {
 		return nil
 	}
-	rs = append(rs, Region{Off: 0, Len: 512, Name: "cfb.header"})
+	rs = append(rs, Region{Off: 0, Len: 512, Name: "cfb.header"},
+		Region{Off: 0, Len: 8, Name: "cfb.magic", Core: true},
+		Region{Off: 24, Len: 76 - 24 + 16, Name: "cfb.header.fields", Core: true})
 	shift := u16(b, 30)
 	if shift < 7 || shift > 16 {
 		return rs
@@ -230,6 +321,9 @@ func CFBLayout(b []byte) []Region {
 		}
 		if secOff(s)+ss <= len(b) {
 			rs = append(rs, Region{Off: secOff(s), Len: ss, Name: "cfb.fat"})
+			if i == 0 {
+				rs = append(rs, Region{Off: secOff(s), Len: 32, Name: "cfb.fat.head", Core: true})
+			}
 			for j := 0; j < ss/4; j++ {
 				fat = append(fat, u32(b, secOff(s)+4*j))
 			}
@@ -242,38 +336,73 @@ func CFBLayout(b []byte) []Region {
 		return fat[s]
 	}
 	dir := u32(b, 48)
+	nent := 0
 	for i := 0; i < 64 && dir < 0xfffffffa && secOff(dir)+ss <= len(b); i++ {
-		rs = append(rs, Region{Off: secOff(dir), Len: ss, Name: "cfb.dir"})
+		so := secOff(dir)
+		rs = append(rs, Region{Off: so, Len: ss, Name: "cfb.dir"})
+		for e := 0; e+128 <= ss; e += 128 {
+			if b[so+e+66] == 0 { // unused entry
+				continue
+			}
+			if nent < 12 {
+				rs = append(rs, Region{Off: so + e + 64, Len: 16, Name: "cfb.dirent.namelen..child", Base: so + e, Core: true},
+					Region{Off: so + e + 116, Len: 12, Name: "cfb.dirent.start+size", Base: so + e, Core: true})
+			}
+			nent++
+		}
 		dir = next(dir)
 	}
 	mf := u32(b, 60)
 	for i := 0; i < 4 && mf < 0xfffffffa && secOff(mf)+ss <= len(b); i++ {
 		rs = append(rs, Region{Off: secOff(mf), Len: ss, Name: "cfb.minifat"})
+		if i == 0 {
+			rs = append(rs, Region{Off: secOff(mf), Len: 32, Name: "cfb.minifat.head", Core: true})
+		}
 		mf = next(mf)
 	}
 	return rs
 }
 
-// ArLayout: global magic, each 60-byte member header and the first 256 bytes
-// of each member.
+// CabLayout: CFHEADER (36 bytes + optional reserve sizes + the 20-byte
+// signature reserve), the CFFOLDER and CFFILE tables that follow.
+func CabLayout(b []byte) []Region {
+	if len(b) < 36 {
+		return nil
+	}
+	rs := []Region{{Off: 0, Len: 36, Name: "cab.header", Core: true}}
+	p := 36
+	flags := u16(b, 30)
+	if flags&4 != 0 { // reserve present: cbCFHeader(2) cbCFFolder(1) cbCFData(1) abReserve
+		cb := u16(b, 36)
+		rs = append(rs, Region{Off: 36, Len: 4 + capLen(cb, 32), Name: "cab.reserve", Base: 36, Core: true})
+		p += 4 + cb
+	}
+	nf, nfiles := u16(b, 26), u16(b, 28)
+	rs = append(rs, Region{Off: p, Len: capLen(8*nf, 64), Name: "cab.folders", Base: p, Core: true})
+	fo := u32(b, 16)
+	if fo > 0 && fo < len(b) {
+		rs = append(rs, Region{Off: fo, Len: capLen(nfiles*24, 96), Name: "cab.files", Base: fo, Core: true})
+	}
+	return rs
+}
+
+// ArLayout: global magic, each 60-byte member header (core) and the head and
+// tail of each member.
 func ArLayout(b []byte) []Region {
 	var rs []Region
 	if len(b) < 8 {
 		return nil
 	}
-	rs = append(rs, Region{Off: 0, Len: 8, Name: "ar.magic"})
+	rs = append(rs, Region{Off: 0, Len: 8, Name: "ar.magic", Core: true})
 	p := 8
 	for p+60 <= len(b) {
-		rs = append(rs, Region{Off: p, Len: 60, Name: "ar.header"})
+		rs = append(rs, Region{Off: p, Len: 60, Name: "ar.header", Core: true})
 		sz, err := strconv.Atoi(strings.TrimSpace(string(b[p+48 : p+58])))
 		if err != nil || sz < 0 {
 			break
 		}
-		l := sz
-		if l > 256 {
-			l = 256
-		}
-		rs = append(rs, Region{Off: p + 60, Len: l, Name: "ar.member.head"})
+		rs = append(rs, Region{Off: p + 60, Len: capLen(sz, 256), Name: "ar.member.head"})
+		rs = append(rs, Region{Off: p + 60, Len: capLen(sz, 16), Name: "ar.member.magic", Core: true})
 		if sz > 512 {
 			rs = append(rs, Region{Off: p + 60 + sz - 64, Len: 64, Name: "ar.member.tail"})
 		}
@@ -282,19 +411,21 @@ func ArLayout(b []byte) []Region {
 	return rs
 }
 
-// DERLayout: a window of `win` bytes at every TLV header down to the given
-// nesting depth (constructed types are descended; OCTET STRING and BIT STRING
-// contents that parse as DER are descended too).
-func DERLayout(b []byte, depth, win int) []Region {
+// DERLayout: a 24-byte window at every TLV header down to nesting depth 10
+// (constructed types are descended; OCTET STRING contents too). Core: the
+// tag+length bytes (+2) of the 128 shallowest headers (breadth first).
+func DERLayout(b []byte) []Region {
 	var rs []Region
+	type hd struct{ start, hlen, depth int }
+	var hds []hd
 	var walk func(off, end, d int)
 	walk = func(off, end, d int) {
-		for off < end && off+2 <= len(b) {
+		for off < end && off+2 <= len(b) && len(hds) < 1500 {
 			start := off
 			tag := b[off]
 			off++
 			if tag&0x1f == 0x1f {
-				for off < end && b[off]&0x80 != 0 {
+				for off < end && off < len(b) && b[off]&0x80 != 0 {
 					off++
 				}
 				off++
@@ -315,25 +446,35 @@ func DERLayout(b []byte, depth, win int) []Region {
 				}
 				off += nb
 			}
-			rs = append(rs, Region{Off: start, Len: win, Name: "der.tlv", Base: start, Step32: 1, Step16: 1})
+			hds = append(hds, hd{start, off - start, d})
 			cend := off + l
 			if cend > end {
 				cend = end
 			}
-			if d > 1 && (tag&0x20 != 0 || tag == 0x04) && l >= 2 {
-				walk(off, cend, d-1)
+			if d < 10 && (tag&0x20 != 0 || tag == 0x04) && l >= 2 {
+				walk(off, cend, d+1)
 			}
 			off += l
 		}
 	}
-	walk(0, len(b), depth)
-	if len(rs) > 400 {
-		rs = rs[:400]
+	walk(0, len(b), 1)
+	for _, h := range hds {
+		rs = append(rs, Region{Off: h.start, Len: 24, Name: "der.tlv", Base: h.start, Step32: 1, Step16: 1})
+	}
+	// core: tag+length bytes (+2 value bytes) of the shallowest 64 headers
+	ncore := 0
+	for d := 1; d <= 10 && ncore < 128; d++ {
+		for _, h := range hds {
+			if h.depth == d && ncore < 128 {
+				rs = append(rs, Region{Off: h.start, Len: h.hlen + 2, Name: "der.tlv.head", Base: h.start, Step32: 1, Step16: 1, Core: true})
+				ncore++
+			}
+		}
 	}
 	return rs
 }
 
-// XarLayout: the header, the (compressed) table of contents, the first 1 KiB
+// XarLayout: the header (core), the (compressed) table of contents, the head
 // of the heap (signature and checksum live at the heap start).
 func XarLayout(b []byte) []Region {
 	if len(b) < 28 {
@@ -341,39 +482,67 @@ func XarLayout(b []byte) []Region {
 	}
 	hs := int(binary.BigEndian.Uint16(b[4:]))
 	tocLen := be64(b, 8)
-	rs := []Region{{Off: 0, Len: hs, Name: "xar.header"}}
-	l := tocLen
-	if l > 4096 {
-		l = 4096
-	}
-	rs = append(rs, Region{Off: hs, Len: l, Name: "xar.toc"})
-	rs = append(rs, Region{Off: hs + tocLen, Len: 1024, Name: "xar.heap.head"})
+	rs := []Region{{Off: 0, Len: hs, Name: "xar.header", Core: true}}
+	rs = append(rs, Region{Off: hs, Len: capLen(tocLen, 4096), Name: "xar.toc"}, Region{Off: hs, Len: 16, Name: "xar.toc.head", Core: true})
+	rs = append(rs, Region{Off: hs + tocLen, Len: 1024, Name: "xar.heap.head"}, Region{Off: hs + tocLen, Len: 48, Name: "xar.heap.first", Core: true})
 	return rs
 }
 
 // DmgLayout: the 512-byte koly trailer, the head of the XML property list
-// and of the code signature blob it points to.
+// and of the code signature blob it points to. Core: koly header fields, the
+// fork/XML/signature offset+length pairs, checksum type/size words; the
+// superblob header and its index.
 func DmgLayout(b []byte) []Region {
 	n := len(b)
 	if n < 512 || string(b[n-512:n-508]) != "koly" {
 		return nil
 	}
 	k := n - 512
-	rs := []Region{{Off: k, Len: 512, Name: "dmg.koly", Base: k}}
+	rs := []Region{{Off: k, Len: 512, Name: "dmg.koly", Base: k},
+		{Off: k, Len: 64, Name: "dmg.koly.head+forks", Base: k, Core: true},
+		{Off: k + 80, Len: 8, Name: "dmg.koly.cksum", Base: k, Core: true},
+		{Off: k + 216, Len: 16, Name: "dmg.koly.xml", Base: k, Core: true},
+		{Off: k + 296, Len: 16, Name: "dmg.koly.sig", Base: k, Core: true},
+		{Off: k + 352, Len: 8, Name: "dmg.koly.mcksum", Base: k, Core: true},
+		{Off: k + 488, Len: 12, Name: "dmg.koly.variant+sectors", Base: k, Core: true}}
 	if xo := be64(b, k+216); xo > 0 && xo < n {
 		rs = append(rs, Region{Off: xo, Len: 1024, Name: "dmg.xml.head"})
 	}
 	if so, sl := be64(b, k+296), be64(b, k+304); so > 0 && so < n {
-		if sl > 4096 {
-			sl = 4096
+		rs = append(rs, Region{Off: so, Len: capLen(sl, 4096), Name: "dmg.codesig", Base: so})
+		rs = append(rs, CodeSigCore(b, so)...)
+	}
+	return rs
+}
+
+// CodeSigCore: an Apple embedded-signature superblob: magic, length, count,
+// index entries (type, offset), and the header of each indexed blob (magic,
+// length; for code directories the first 48 bytes of offsets/counts).
+func CodeSigCore(b []byte, so int) []Region {
+	var rs []Region
+	if so+12 > len(b) {
+		return nil
+	}
+	cnt := be32(b, so+8)
+	rs = append(rs, Region{Off: so, Len: 12 + 8*capLen(cnt, 8), Name: "codesig.superblob", Base: so, Core: true})
+	for i := 0; i < cnt && i < 8; i++ {
+		bo := so + be32(b, so+12+8*i+4)
+		if bo+8 > len(b) || bo < so {
+			continue
 		}
-		rs = append(rs, Region{Off: so, Len: sl, Name: "dmg.codesig", Base: so})
+		l := 8
+		if be32(b, bo) == 0xfade0c02 { // code directory
+			l = 48
+		}
+		rs = append(rs, Region{Off: bo, Len: l, Name: "codesig.blob.head", Base: bo, Core: true})
 	}
 	return rs
 }
 
 // MachOLayout: header and load commands; the head of the code signature
 // (LC_CODE_SIGNATURE dataoff); for fat files the fat header and each slice.
+// Core: mach header, cmd+cmdsize of each load command, the LC_CODE_SIGNATURE
+// and __LINKEDIT segment commands, the superblob.
 func MachOLayout(b []byte) []Region {
 	var rs []Region
 	if len(b) < 32 {
@@ -382,15 +551,11 @@ func MachOLayout(b []byte) []Region {
 	magic := binary.BigEndian.Uint32(b)
 	if magic == 0xcafebabe {
 		nf := be32(b, 4)
-		rs = append(rs, Region{Off: 0, Len: 8 + 20*nf, Name: "macho.fat"})
+		rs = append(rs, Region{Off: 0, Len: 8 + 20*capLen(nf, 8), Name: "macho.fat", Core: true})
 		for i := 0; i < nf && i < 8; i++ {
 			off, size := be32(b, 8+20*i+8), be32(b, 8+20*i+12)
 			if off > 0 && off+size <= len(b) {
-				for _, r := range MachOLayout(b[off : off+size]) {
-					r.Off += off
-					r.Base += off
-					rs = append(rs, r)
-				}
+				rs = append(rs, Shift(MachOLayout(b[off:off+size]), off)...)
 			}
 		}
 		return rs
@@ -409,16 +574,19 @@ func MachOLayout(b []byte) []Region {
 		return nil
 	}
 	ncmds, sizeofcmds := int(bo.Uint32(b[16:])), int(bo.Uint32(b[20:]))
-	rs = append(rs, Region{Off: 0, Len: hdr + sizeofcmds, Name: "macho.headers"})
+	rs = append(rs, Region{Off: 0, Len: hdr + sizeofcmds, Name: "macho.headers"}, Region{Off: 0, Len: hdr, Name: "macho.header", Core: true})
 	p := hdr
 	for i := 0; i < ncmds && p+8 <= len(b); i++ {
 		cmd, sz := bo.Uint32(b[p:]), int(bo.Uint32(b[p+4:]))
+		rs = append(rs, Region{Off: p, Len: 8, Name: "macho.lc", Base: p, Core: i < 24})
 		if cmd == 0x1d && p+16 <= len(b) { // LC_CODE_SIGNATURE
+			rs = append(rs, Region{Off: p, Len: 16, Name: "macho.lc.codesig", Base: p, Core: true})
 			off, l := int(bo.Uint32(b[p+8:])), int(bo.Uint32(b[p+12:]))
-			if l > 2048 {
-				l = 2048
-			}
-			rs = append(rs, Region{Off: off, Len: l, Name: "macho.codesig", Base: off})
+			rs = append(rs, Region{Off: off, Len: capLen(l, 2048), Name: "macho.codesig", Base: off})
+			rs = append(rs, CodeSigCore(b, off)...)
+		}
+		if (cmd == 0x19 || cmd == 0x1) && p+24 <= len(b) && strings.HasPrefix(string(b[p+8:p+24]), "__LINKEDIT") {
+			rs = append(rs, Region{Off: p, Len: capLen(sz, 72), Name: "macho.lc.linkedit", Base: p, Core: true})
 		}
 		if sz <= 0 {
 			break
@@ -428,7 +596,7 @@ func MachOLayout(b []byte) []Region {
 	return rs
 }
 
-// TarLayout: every 512-byte header block and the two zero blocks at the end.
+// TarLayout: every 512-byte header block.
 func TarLayout(b []byte) []Region {
 	var rs []Region
 	for _, h := range TarHeaders(b) {
@@ -447,9 +615,10 @@ type TarHeader struct {
 func TarHeaders(b []byte) []TarHeader {
 	var out []TarHeader
 	p := 0
+	zero := make([]byte, 512)
 	for p+512 <= len(b) {
 		blk := b[p : p+512]
-		if bytes.Equal(blk, make([]byte, 512)) {
+		if bytes.Equal(blk, zero) {
 			break
 		}
 		name := string(bytes.TrimRight(blk[0:100], "\x00"))
@@ -464,34 +633,59 @@ func TarHeaders(b []byte) []TarHeader {
 	return out
 }
 
-// XMLSigLayout: a window from the <Signature element (signed manifests are
-// dominated by base64 certificates after it).
+// XMLSigLayout: a window at each element of an enveloped XML signature
+// (signed manifests are dominated by base64 certificates after it).
 func XMLSigLayout(b []byte) []Region {
 	var rs []Region
-	for _, tok := range []string{"<Signature", "<SignedInfo", "<SignatureValue", "<KeyInfo", "<msrel:RelData", "<X509Data", "</Signature>"} {
+	for _, tok := range []string{"<Signature", "<SignedInfo", "<Reference", "<DigestValue", "<SignatureValue", "<KeyInfo", "<msrel:RelData", "<r:license", "<as:ManifestInformation", "<X509Data", "<X509Certificate", "</Signature>", "<publisherIdentity", "<assemblyIdentity"} {
 		if i := bytes.Index(b, []byte(tok)); i >= 0 {
 			rs = append(rs, Region{Off: i - 16, Len: 256, Name: "xml." + tok[1:]})
+			rs = append(rs, Region{Off: i, Len: len(tok) + 24, Name: "xml.core." + tok[1:], Core: true})
 		}
 	}
 	return rs
 }
 
 // RPMLayout: lead (96), signature header (intro 16 + index entries), main
-// header intro + index entries.
+// header intro + index entries. Core: lead magic/type/signature_type, header
+// intros, the first 8 index entries of each header.
 func RPMLayout(b []byte) []Region {
 	var rs []Region
 	if len(b) < 96+16 {
 		return nil
 	}
-	rs = append(rs, Region{Off: 0, Len: 96, Name: "rpm.lead"})
+	rs = append(rs, Region{Off: 0, Len: 96, Name: "rpm.lead"}, Region{Off: 0, Len: 10, Name: "rpm.lead.head", Core: true}, Region{Off: 76, Len: 4, Name: "rpm.lead.sigtype", Core: true})
 	p := 96
 	for h := 0; h < 2 && p+16 <= len(b); h++ {
 		nidx, dl := be32(b, p+8), be32(b, p+12)
 		rs = append(rs, Region{Off: p, Len: 16 + 16*nidx, Name: "rpm.header.index", Base: p})
+		rs = append(rs, Region{Off: p, Len: 16 + 16*capLen(nidx, 8), Name: "rpm.header.index.head", Base: p, Core: true})
 		p += 16 + 16*nidx + dl
 		if h == 0 {
 			p = (p + 7) &^ 7
 		}
+	}
+	return rs
+}
+
+// TextLayout: line-oriented signed text (PowerShell signature blocks, PGP
+// armor, clearsigned messages): a window at every armor/marker line.
+func TextLayout(b []byte) []Region {
+	var rs []Region
+	for _, tok := range []string{"# SIG # Begin", "# SIG # End", "<!-- SIG # Begin", "<!-- SIG # End", "/* SIG # Begin", "/* SIG # End", "-----BEGIN PGP SIGNED", "-----BEGIN PGP SIGNATURE", "-----BEGIN PGP MESSAGE", "-----END PGP", "\nHash:", "-----BEGIN", "-----END"} {
+		for from, k := 0, 0; k < 2; k++ {
+			i := bytes.Index(b[from:], []byte(tok))
+			if i < 0 {
+				break
+			}
+			i += from
+			rs = append(rs, Region{Off: i - 4, Len: len(tok) + 48, Name: "text.marker", Core: true})
+			from = i + len(tok)
+		}
+	}
+	// the blank line / CRC line before an armor tail
+	if i := bytes.LastIndex(b, []byte("\n=")); i >= 0 {
+		rs = append(rs, Region{Off: i - 8, Len: 24, Name: "text.armor.crc", Core: true})
 	}
 	return rs
 }
